@@ -1163,6 +1163,54 @@ def current_definition(fn, ref):
     return init
 
 
+def inline_accessor(fb, call):
+    """The expression a call of a one-line accessor stands for: an in-repo function whose body is `return <expr>;`
+    — a free/static function, or a const member called on the same object (`this->f(..)` / `f(..)`), so that the
+    fields it reads are the caller's own.  Parameters are replaced by the arguments.  None otherwise."""
+    if fb is None or call.get("k") != "call" or call.get("op") is not None:
+        return None
+    c = call.get("callee") or {}
+    if "obj" in call:
+        o = strip_all_casts(call["obj"])
+        if o.get("k") != "this" or not c.get("const"):
+            return None
+    g = fb.resolve_call(call)
+    if g is None or g.body is None:
+        return None
+    body = g.body.get("body", []) if g.body.get("k") == "compound" else [g.body]
+    if len(body) != 1 or body[0].get("k") != "return" or not isinstance(body[0].get("e"), dict):
+        return None
+    args = effective_call(call).get("args", [])
+    if len(args) != len(g.params):
+        return None
+    e = body[0]["e"]
+    pd = {p["decl"] for p in g.params}
+    for x in walk(e):
+        if x.get("k") == "ref" and x.get("dk") in ("local", "param") and x.get("decl") not in pd:
+            return None
+        if x.get("k") in ("assign", "cassign", "lambda") or (x.get("k") == "un" and x.get("op") in ("pre++", "post++", "pre--", "post--")):
+            return None
+    return substitute(e, {p["decl"]: a for p, a in zip(g.params, args)})
+
+
+def inline_accessors(fb, e, depth=2):
+    """Copy of e with one-line accessors (see inline_accessor) replaced by their expressions, depth levels deep."""
+    if depth <= 0 or fb is None:
+        return e
+
+    def go(x):
+        if isinstance(x, list):
+            return [go(y) for y in x]
+        if not isinstance(x, dict) or "k" not in x:
+            return x
+        if x.get("k") == "call":
+            y = inline_accessor(fb, x)
+            if y is not None:
+                return inline_accessors(fb, y, depth - 1)
+        return {k2: (v if k2 in NONCHILD_KEYS or not isinstance(v, (dict, list)) else go(v)) for k2, v in x.items()}
+    return go(e)
+
+
 def inline_lambda_call(fn, call):
     """The expression a call of a local lambda stands for, when the lambda's body is one `return <expr>;`
     (parameters replaced by the arguments; captures refer to the enclosing function's variables as they are)."""
